@@ -108,6 +108,17 @@ def shape3d(draw, bs, max_voxels=400_000, max_traces=None):
     large, the classes of the largest axes are lowered (construction, not rejection)."""
     cls = [draw(st.sampled_from(DIM_CLASSES)) for _ in range(3)]
     mult = {"lt": 1, "eq": 1, "gt": 2, "multi": 4}
+    if bs[0] * bs[1] <= 16 and draw(st.integers(0, 3)) == 0:
+        # many block columns in the inline/crossline plane (more than the 20 workers of a remote reader, more
+        # than any per-axis cache holds): a few samples per trace keep the cube small
+        cap = max_voxels // max(bs[2], 1)
+        if max_traces is not None:
+            cap = min(cap, max_traces)
+        if cap >= 40 * bs[0] * bs[1]:
+            n0 = draw(st.integers(4 * bs[0] + 1, min(11 * bs[0], cap // (6 * bs[1]))))
+            p0 = -(-n0 // bs[0]) * bs[0]
+            n1 = draw(st.integers(5 * bs[1] + 1, max(5 * bs[1] + 1, min(11 * bs[1], cap // p0))))
+            return (n0, n1, draw(dim(bs[2], classes=["lt", "eq"])))
 
     def too_big(cl):
         p = [mult[c] * b for c, b in zip(cl, bs)]
@@ -128,7 +139,8 @@ def shape3d(draw, bs, max_voxels=400_000, max_traces=None):
     return tuple(shape)
 
 
-VALUE_KINDS = ["smooth", "gauss", "const", "huge", "tiny", "mixed", "steps", "zeros_signed"]
+# "deadedge": live samples with a dead (all-zero) first line and last crossline, as at the rim of a survey
+VALUE_KINDS = ["smooth", "gauss", "const", "huge", "tiny", "mixed", "steps", "zeros_signed", "deadedge"]
 
 
 def make_values(shape, kind, vseed):
@@ -157,6 +169,11 @@ def make_values(shape, kind, vseed):
         a = np.where(rng.integers(0, 2, n) == 0, 0.0, -0.0).reshape(shape)
         m = rng.integers(0, 8, n).reshape(shape) == 0
         a = np.where(m, rng.standard_normal(n).reshape(shape), a)
+    elif kind == "deadedge":
+        a = rng.standard_normal(n).reshape(shape) * 10.0 ** rng.integers(-1, 5)
+        a[0] = 0.0
+        if len(shape) == 3:
+            a[:, -1] = 0.0
     else:
         raise ValueError(kind)
     a = np.asarray(a, dtype=np.float64)
@@ -164,6 +181,33 @@ def make_values(shape, kind, vseed):
     a = np.clip(a, -fmax, fmax).astype(np.float32)
     assert np.all(np.isfinite(a))
     return np.ascontiguousarray(a)
+
+
+MEM_LAYOUTS = ["C", "C", "F", "view", "zstrided", "readonly"]
+
+
+def as_layout(a, layout):
+    """The same float32 values in another memory layout (what a caller may hand to NumpyConverter: a
+    Fortran-ordered array, a window into a larger array, every other sample of a longer one, a read-only
+    array)."""
+    if layout in (None, "C"):
+        return a
+    if layout == "F":
+        return np.asfortranarray(a)
+    if layout == "view":
+        big = np.full(tuple(n + 3 for n in a.shape), np.float32(7.25), dtype=np.float32)
+        sl = tuple(slice(1, 1 + n) for n in a.shape)
+        big[sl] = a
+        return big[sl]
+    if layout == "zstrided":
+        big = np.full(a.shape[:-1] + (2 * a.shape[-1],), np.float32(-3.5), dtype=np.float32)
+        big[..., ::2] = a
+        return big[..., ::2]
+    if layout == "readonly":
+        b = a.copy()
+        b.setflags(write=False)
+        return b
+    raise ValueError(layout)
 
 
 values_spec = st.fixed_dictionaries({"kind": st.sampled_from(VALUE_KINDS), "vseed": st.integers(0, 2 ** 32 - 1)})
